@@ -91,7 +91,7 @@ def _mk(o):
     if k == 'N':
         return common.make_net(o[1], o[2], o[3])
     if k == 'R':
-        return IPRange(IPAddress(o[2], o[1]), IPAddress(o[3], o[1]))
+        return common.make_range(o[1], o[2], o[3])
     if k == 'G':
         return common.make_glob(o[4])
     raise ValueError(o)
